@@ -1,19 +1,35 @@
 /* VERIF-UNIT
 {
  "name": "ea_inode_debugfs_set_file",
- "props": ["C15"],
+ "props": [
+  "C15"
+ ],
  "level": "U/k",
  "tier": "quick",
  "harness": "h_debugfs_set_file",
- "includes": ["debugfs", "lib/ss", "misc", "e2fsck", "lib/support"],
- "defines": ["DEBUGFS", "EXT2_CUSTOM_MEMORY_ROUTINES"],
+ "includes": [
+  "debugfs",
+  "lib/ss",
+  "misc",
+  "e2fsck",
+  "lib/support"
+ ],
+ "defines": [
+  "DEBUGFS",
+  "EXT2_CUSTOM_MEMORY_ROUTINES"
+ ],
  "unwind": 10,
  "unwind_reason": "value files of at most 70000 bytes on 1 KiB blocks: a repaired do_set_xattr that reads the file in a doubling buffer needs at most 8 rounds (1 KiB .. 128 KiB); the option loop sees at most 2 options; unwinding assertions on",
- "functions": ["debugfs/xattrs.c:do_set_xattr"],
- "assumes": ["command line: ea_set -f <value file> [-r] <file> <attr>; the value file holds 0 .. 70000 bytes (64 KiB is the largest value the library accepts); block size 1024",
-             "getopt is a scripted stub (delivers 'f', optionally 'r', then -1); fopen/fread/fclose are a ghost file: fread(ptr, 1, n, fp) CHECKS that ptr can take n bytes and delivers min(n, rest) bytes and checks that the chunk is stored at its own file offset inside the buffer that is later handed to the library (bytes themselves are not tracked); printf / com_err / perror are no-ops; check_fs_*, string_to_inode, ext2fs_xattrs_open/flags/read/close succeed; ext2fs_xattr_set records pointer and length; allocation (ext2fs.h compiled with EXT2_CUSTOM_MEMORY_ROUTINES) does not fail, ext2fs_resize_mem hands out a new, larger object that stands for the old contents",
-             "FAILS ON THE TREE (genuine defect, findings/C15_ea_inode_debugfs_set_truncates): fread(buf, 1, current_fs->blocksize, fp) — only the first block of the value file is handed to ext2fs_xattr_set; passes with the proposed fix"],
- "native": false
+ "functions": [
+  "debugfs/xattrs.c:do_set_xattr"
+ ],
+ "assumes": [
+  "command line: ea_set -f <value file> [-r] <file> <attr>; the value file holds 0 .. 70000 bytes (64 KiB is the largest value the library accepts); block size 1024",
+  "getopt is a scripted stub (delivers 'f', optionally 'r', then -1); fopen/fread/fclose are a ghost file: fread(ptr, 1, n, fp) CHECKS that ptr can take n bytes and delivers min(n, rest) bytes and checks that the chunk is stored at its own file offset inside the buffer that is later handed to the library (bytes themselves are not tracked); printf / com_err / perror are no-ops; check_fs_*, string_to_inode, ext2fs_xattrs_open/flags/read/close succeed; ext2fs_xattr_set records pointer and length; allocation (ext2fs.h compiled with EXT2_CUSTOM_MEMORY_ROUTINES) does not fail, ext2fs_resize_mem hands out a new, larger object that stands for the old contents",
+  "FAILS ON THE TREE (genuine defect, findings/C15_ea_inode_debugfs_set_truncates): fread(buf, 1, current_fs->blocksize, fp) \u2014 only the first block of the value file is handed to ext2fs_xattr_set; passes with the proposed fix"
+ ],
+ "native": false,
+ "no_cross_check": true
 }
 */
 #include "verif.h"
